@@ -191,7 +191,9 @@ class Mie(ScatteringTheory):
         '''
         if (ensure_array(s.r) == 0).any():
             raise InvalidScatterer(s, "Radius is zero")
-        x_arr = ensure_array(medium_wavevec * ensure_array(s.r))
+        # in double precision whatever the type of the radius (scipy's
+        # Riccati-Bessel functions return nan for float32 arguments)
+        x_arr = ensure_array(medium_wavevec * ensure_array(s.r).astype(float))
         m_arr = ensure_array(ensure_array(s.n) / medium_index)
 
         # Check that the scatterer is in a range we can compute for
